@@ -1,6 +1,7 @@
 package main
 
 import (
+	"encoding/json"
 	"fmt"
 	"go/ast"
 	"go/types"
@@ -219,6 +220,12 @@ func prepare(repo, verif string) (*load.Program, error) {
 		notes = append(notes, "rename followed: "+n)
 	}
 	prog.Notes = notes
+	if b, rerr := os.ReadFile(filepath.Join(filepath.Dir(anchorsPath), "errdisp.json")); rerr == nil {
+		var ed map[string]map[string][]string
+		if json.Unmarshal(b, &ed) == nil {
+			prog.RefErrDisp = ed
+		}
+	}
 	prog.RefFields = map[string]map[string]bool{}
 	for _, sa := range table.Structs {
 		m := map[string]bool{}
